@@ -163,6 +163,7 @@ package cert
 //@   ensures @C10,C14,C17 err == nil ==> BufContent(unboxRef(w)) == bcat(old(BufContent(unboxRef(w))), pemKey(prk))
 
 //@ func MarshalPKCS8PrivateKey returns (res, err)
+//@   bounded TestVerifBoundedKeyRoundTrip
 //@   props C17 C14
 //@   uses fs.smt2 ec.smt2
 //@   given NAMEOIDS
@@ -296,6 +297,7 @@ package cert
 
 // Key identifiers (C01, C07): SHA-1 over the subject's public key bits / the issuer's public key bits
 //@ func NewSubjectKeyIdentifier returns (res, err)
+//@   bounded TestVerifBoundedKeyIds
 //@   props C01 C06 C07
 //@   uses ext.smt2
 //@   given EXTOIDS
@@ -305,6 +307,7 @@ package cert
 //@   ensures err != nil ==> res == nil
 
 //@ func NewAuthorityKeyIdentifierHash returns (res, err)
+//@   bounded TestVerifBoundedKeyIds
 //@   props C01 C06 C07
 //@   uses ext.smt2
 //@   given EXTOIDS
@@ -430,6 +433,7 @@ package cert
 // big-endian value of the octets and below the group order; the public point is D*G for exactly that D (the scalar is
 // left-padded with zero bytes to the curve size, surplus leading zero bytes are dropped).
 //@ func parseECPrivateKey returns (key, err)
+//@   bounded TestVerifBoundedKeyRoundTrip
 //@   props C17 C14
 //@   uses ec.smt2
 //@   let ECL = aftercall("encoding/asn1.Unmarshal", 1, deref(addr(privKey)))
@@ -454,6 +458,7 @@ package cert
 // marshalECPrivateKeyWithOID: RFC 5915 ECPrivateKey, version 1, the scalar as exactly ceil(bitlen(n)/8) big-endian
 // octets, the given curve OID, the uncompressed public point.
 //@ func marshalECPrivateKeyWithOID returns (res, err)
+//@   bounded TestVerifBoundedKeyRoundTrip
 //@   props C17
 //@   uses ec.smt2
 //@   ghostret EC gopki/generator/cert.ecPrivateKey = unboxed(callarg("encoding/asn1.Marshal", 1, 0), "gopki/generator/cert.ecPrivateKey")
@@ -471,6 +476,7 @@ package cert
 // ParsePKCS8PrivateKey: RSA keys go to the PKCS#1 parser, EC keys to parseECPrivateKey with the curve OID of the
 // algorithm parameters (if it parses), anything else is an error.
 //@ func ParsePKCS8PrivateKey returns (key, err)
+//@   bounded TestVerifBoundedKeyRoundTrip
 //@   props C17 C14 C20
 //@   uses ec.smt2 fs.smt2
 //@   given oidv(oidRsaEncryption) == oid("1.2.840.113549.1.1.1") && oidv(oidEcPublicKey) == oid("1.2.840.10045.2.1")
